@@ -17,7 +17,7 @@ Proof.
   induction k as [|k IH]; intros a i p Hrs Hr Hi Hlen; simpl copyLoop.
   - destruct ((regv + i <=? p) && (p <? regv + i + Z.of_nat 0)) eqn:E; [lia|reflexivity].
   - rewrite IH by (rewrite ?len_upd; lia). unfold srcval. rewrite !rd_upd.
-    cases_if; try lia; try reflexivity; try (f_equal; lia).
+    cases_if_prune; try lia; try reflexivity; try (f_equal; lia).
 Qed.
 
 Lemma copyRangeL_down (l : list cell) regv start n :
@@ -33,7 +33,7 @@ Proof.
   - intros i Hi. rewrite len_firstn, copyLoop_len in Hi.
     rewrite rd_firstn. destruct (i <? regv + n) eqn:E; [|lia].
     rewrite copyLoop_fwd by lia. unfold srcval, resizeL, l0. rd_norm.
-    cases_if; try lia; try reflexivity; try (f_equal; lia).
+    cases_if_prune; try lia; try reflexivity; try (f_equal; lia).
 Qed.
 
 (* ---------- the return of a Go function ---------- *)
@@ -132,6 +132,9 @@ Definition luaResults (regs : list cell) (A B : Z) : list cell :=
 Lemma resizeL_le (X : list cell) b n : 0 <= n <= b -> resizeL (resizeL X b) n = resizeL X n.
 Proof. intros. pose proof (len_nonneg X). unfold resizeL. pw. Qed.
 
+Lemma resizeL_0 (X : list cell) : resizeL X 0 = [].
+Proof. unfold resizeL. destruct X; reflexivity. Qed.
+
 Lemma resizeL_len (X : list cell) : resizeL X (len X) = X.
 Proof. pose proof (len_nonneg X). unfold resizeL. pw. Qed.
 
@@ -168,8 +171,8 @@ Proof.
   { unfold res, luaResults, resizeL. destruct (B =? 0) eqn:E; rd_norm; lia. }
   (* the count copyReturnValues is asked for *)
   set (n := if wanted =? -1 then len res else wanted).
-  assert (Hn0 : 0 <= n) by (unfold n; destruct (wanted =? -1); destruct (B =? 0); lia).
-  assert (Hnl : len pre + n <= lim) by (unfold n; destruct (wanted =? -1); destruct (B =? 0); lia).
+  assert (Hn0 : 0 <= n) by (unfold n; destruct (wanted =? -1) eqn:?; destruct (B =? 0) eqn:?; lia).
+  assert (Hnl : len pre + n <= lim) by (unfold n; destruct (wanted =? -1) eqn:?; destruct (B =? 0) eqn:?; lia).
   (* copyReturnValues leaves pre ++ resizeL res n *)
   assert (Hcopy : exists r1, copyReturnValues r (len pre) (len pre + 1 + A) n B = Ok r1 /\
                              Rr r1 (pre ++ resizeL res n) lim).
@@ -178,7 +181,8 @@ Proof.
       destruct (FillNil_ok r _ lim (len pre) n HR) as (r1 & Q1 & HR1); try lia.
       exists r1. split; [exact Q1|]. rewrite fillNil_all in HR1 by lia.
       replace (resizeL res n) with (resizeL [] n); [exact HR1|].
-      unfold res, luaResults. cbn [Z.eqb Z.sub Z.add Z.opp Z.pos_sub]. rewrite resizeL_le by lia. reflexivity.
+      unfold res, luaResults. replace (1 =? 0) with false by reflexivity. replace (1 - 1) with 0 by lia.
+      rewrite resizeL_0. reflexivity.
     - destruct (CopyRange_ok r _ lim (len pre) (len pre + 1 + A) (-1) n HR) as (r1 & Q1 & HR1); try lia.
       rewrite Q1. cbn [bind]. rewrite copyRangeL_down in HR1 by lia. rewrite copy_down_list in HR1 by lia.
       destruct ((B >? 1) && (n >? B - 1)) eqn:E.
